@@ -1,8 +1,19 @@
 use std::slice::Iter;
 use std::vec::IntoIter;
 
-#[derive(Clone, Debug, PartialEq, Eq, PartialOrd, Ord)]
+#[derive(Clone, Debug, Eq, PartialOrd, Ord)]
 pub struct OrderMap<K, V>(Vec<(K, V)>);
+
+/// Maps are equal when they have equal keys mapped to equal values,
+/// regardless of the order of the entries.
+impl<K: PartialEq, V: PartialEq> PartialEq for OrderMap<K, V> {
+    fn eq(&self, other: &Self) -> bool {
+        self.0.len() == other.0.len()
+            && self.0.iter().all(|(k, v)| {
+                other.0.iter().any(|(ok, ov)| k == ok && v == ov)
+            })
+    }
+}
 
 impl<K: Clone + PartialEq, V: Clone> OrderMap<K, V> {
     pub fn new() -> Self {
